@@ -47,8 +47,11 @@ def match_finding(prop, sig, findings):
     return None
 
 
+OUT_ROOT = os.environ.get("VERIF_OUT") or VERIF_ROOT  # evaluation of seeded changes redirects evidence/replays elsewhere
+
+
 def write_replay(prop, violation, mod):
-    d = os.path.join(VERIF_ROOT, "replays", prop)
+    d = os.path.join(OUT_ROOT, "replays", prop)
     os.makedirs(d, exist_ok=True)
     name = digest(violation["case"]) + ".json"
     path = os.path.join(d, name)
@@ -65,7 +68,7 @@ def write_replay(prop, violation, mod):
 
 
 def write_evidence(prop, tier, seed, level, coverage, assumptions, wall_s, n_viol):
-    d = os.path.join(VERIF_ROOT, "evidence")
+    d = os.path.join(OUT_ROOT, "evidence")
     os.makedirs(d, exist_ok=True)
     ev = {
         "property_id": prop,
@@ -119,7 +122,18 @@ def main(argv=None):
 
     ctx = Ctx(prop, args.tier, seed, args.jobs or None)
     t0 = time.time()
-    res = mod.run(ctx)  # -> dict(level, tally: Tally, coverage: dict, assumptions: list)
+    try:
+        res = mod.run(ctx)  # -> dict(level, tally: Tally, coverage: dict, assumptions: list)
+    except BaseException as e:  # noqa: BLE001 - a broken implementation must not break the checker silently
+        import traceback
+        tb = traceback.format_exc()
+        tally = Tally()
+        tally.evals = 1
+        tally.nontrivial = 2
+        tally.violation({"kind": "check-crashed", "exc": type(e).__name__}, {"traceback_tail": tb[-1500:]}, observed=repr(e)[:300],
+                        note="the check itself raised; with the library under test behaving in an unexpected way this counts as a violation")
+        tally.sample({"crash": repr(e)[:200]})
+        res = {"level": "exploration", "tally": tally, "coverage": {"rule": "check crashed before completing", "exhaustive": False}, "assumptions": []}
     wall = time.time() - t0
     tally: Tally = res["tally"]
 
